@@ -262,6 +262,10 @@ def hmf_solve_body(case):
         a2, g2 = np.asarray(outs[1][0]['acoeff']), np.asarray(outs[1][0]['flux'])
         check(np.array_equal(a, a2) and np.array_equal(g, g2), 'hmf:same-seed-different-result',
               lambda: dict(seed=case['hseed'], maxdiff=float(np.abs(g - g2).max()) if g.shape == g2.shape else 'shape'))
+        # the same object solved again: same seed, same data, same answer (nothing of the first run may be carried over)
+        again = call(h.solve)
+        check(np.array_equal(np.asarray(again['acoeff']), a) and np.array_equal(np.asarray(again['flux']), g), 'hmf:second-solve-on-same-object-differs',
+              lambda: dict(nonnegative=case['nonnegative'], maxdiff=float(np.abs(np.asarray(again['flux']) - g).max()) if np.asarray(again['flux']).shape == g.shape else 'shape'))
         if not case['nonnegative']:
             check(np.array_equal(s1, sp) and np.array_equal(i1, iv), 'hmf:caller-arrays-modified-in-default-mode')
         else:
@@ -275,6 +279,9 @@ def hmf_solve_body(case):
 def pca_case(draw):
     base = draw(hmf_case())
     base['positive'] = True
+    if draw(st.integers(0, 30)) == 0:
+        base['N'] = draw(st.sampled_from([270, 300, 257]))        # survey-sized samples: more spectra than a byte can count
+        base['M'] = 20
     return dict(base, nkeep=draw(st.sampled_from([2, 1, 3])), niter=draw(st.sampled_from([2, 3])), dead=draw(st.sampled_from([0, 0, 1, 2])))
 
 
